@@ -394,3 +394,13 @@ def specs(prog, tier):                                    # noqa: F811
         cls = prog.classes[name]
         out += [fam_g_eq(cls), fam_g_hash(cls), fam_g_repr(cls, "__repr__"), fam_g_repr(cls, "__str__")]
     return out
+
+
+_specs3 = specs
+
+
+def specs(prog, tier):                                    # noqa: F811
+    out = _specs3(prog, tier)
+    for sp in out:
+        sp.optional = True        # upgrades: unbounded arity where the code has the supported shapes
+    return out
